@@ -2,6 +2,7 @@
    Output per line: `ok [tags]` or `FAIL [M][S] model=<…> spec=<…> got=<…>`. -/
 import Driver.C01
 import Driver.C02
+import Driver.C03
 import Driver.C15
 import Driver.C07
 import Driver.C09
@@ -16,6 +17,7 @@ structure Conf where
   digs : Nat := 16
   extra : List (String × String) := []
   fp : Option C02.Env := none
+  ep : Option C03.Env := none
 
 def parseCfg (toks : List String) : Conf :=
   toks.foldl (fun c t =>
@@ -33,6 +35,8 @@ def dispatch (c : Conf) (op : String) (args : List String) (got : String) : Opti
   let latch := (c.extra.lookup "latch").getD "1" == "1"
   (C01.handle e01 op args) <|> (match c.fp with
     | some e => C02.handle e op args got
+    | none => none) <|> (match c.ep with
+    | some e => C03.handle e c.w op args got
     | none => none) <|> (C07.handle e01.cfg op args) <|> (C09.handle c.w c.size c.digs op args got) <|> (C14.handle op args) <|> (C15.handle c.w c.size op args got) <|> (C19.handle latch op args)
 
 def processLine (c : Conf) (line : String) : String :=
@@ -66,6 +70,20 @@ partial def loop (h : IO.FS.Stream) (out : IO.FS.Stream) (c : Conf) : IO Unit :=
     let c' := parseCfg (rhs.splitOn " ")
     out.putStrLn "cfg"
     loop h out c'
+  else if line.startsWith "ep_param " then
+    match line.splitOn " => " with
+    | [_, got] =>
+      match C03.parseEnv got with
+      | some e =>
+        let bad := C03.checkParam e
+        out.putStrLn (if bad.isEmpty then "ok ep_param" else "FAIL S model=[] spec=[" ++ String.intercalate ";" bad ++ "] got=[" ++ got ++ "]")
+        -- the field context follows the curve selection
+        let fpEnv : Option C02.Env := C02.parseEnv c.w ("digs=" ++ toString ((Nat.log2 e.c.p) / c.w + 1) ++ " p=" ++ natToHex e.c.p ++ " u=0 conv=0 qnr=0 cnr=0")
+        loop h out { c with ep := some e, fp := fpEnv }
+      | none =>
+        out.putStrLn (if got == "err" then "ok ep_param-rejected" else "FAIL S model=[] spec=[parsable ep_param] got=[" ++ got ++ "]")
+        loop h out { c with ep := none }
+    | _ => out.putStrLn "skip"; loop h out c
   else if line.startsWith "fp_param " then
     -- the running library reports the active field; the derived constants are checked here
     match line.splitOn " => " with
